@@ -273,6 +273,7 @@ func program(body string, extraTop string) string {
 type topRule struct {
 	name, good, bad string
 	noMain          bool
+	lib             string // text of a second module `lib` both programs may import from
 }
 
 var topRules = []topRule{
@@ -284,6 +285,19 @@ var topRules = []topRule{
 	{name: "closure-return-type", good: "fn main() { let l = fn(x: int) -> int { x }; println(l(1)); }\n", bad: "fn main() { let l = fn(x: int) -> int { \"s\" }; println(l(1)); }\n"},
 	{name: "duplicate-function", good: "fn f() {}\nfn g() {}\nfn main() { f(); g(); }\n", bad: "fn f() {}\nfn f() {}\nfn main() { f(); }\n"},
 	{name: "duplicate-global", good: "let a = 1;\nlet b = 2;\nfn main() { println(a, b); }\n", bad: "let a = 1;\nlet a = 2;\nfn main() { println(a); }\n"},
+	// functions, globals, imports and builtins of a module share one name space: what a bare name denotes must not
+	// depend on who looks it up (the analyzer, the compiler or the interpreter)
+	{name: "duplicate-function-and-global", good: "let a = 5;\nfn f() -> int { 1 }\nfn main() { println(a, f()); }\n", bad: "let f = 5;\nfn f() -> int { 1 }\nfn main() { println(f); }\n"},
+	{name: "duplicate-function-and-unused-global", good: "let a = 5;\nfn f() -> int { 1 }\nfn main() { println(a, f()); }\n", bad: "fn f() -> int { 1 }\nlet f = 5;\nfn main() { println(1); }\n"},
+	{name: "duplicate-function-and-pub-global", good: "pub let a = 5;\npub fn f() -> int { 1 }\nfn main() { println(a, f()); }\n", bad: "let f = 5;\npub fn f() -> int { 1 }\nfn main() { println(1); }\n"},
+	{name: "function-named-like-builtin", good: "fn show(x: int) -> int { x + 1 }\nfn main() { println(show(1)); }\n", bad: "fn println(x: int) -> int { x + 1 }\nfn main() { println(2); }\n"},
+	{name: "function-named-like-builtin-unused", good: "fn show(x: int) -> int { x + 1 }\nfn main() { println(show(1)); }\n", bad: "fn debug(x: int) -> int { x + 1 }\nfn main() { println(2); }\n"},
+	{name: "function-named-like-imported-function", lib: "pub fn f() -> str { \"abc\" }\npub fn g() -> str { \"x\" }\nfn main() {}\n",
+		good: "import g from lib;\nfn f() -> int { 1 }\nfn main() { println(f(), g()); }\n", bad: "import f from lib;\nfn f() -> int { 1 }\nfn main() { let s: str = f(); println(s.len()); }\n"},
+	{name: "function-named-like-imported-global", lib: "pub let f = \"abc\";\npub let g = 2;\nfn main() {}\n",
+		good: "import g from lib;\nfn f() -> int { 1 }\nfn main() { println(f(), g); }\n", bad: "import f from lib;\nfn f() -> int { 1 }\nfn main() { println(f.len()); }\n"},
+	{name: "global-named-like-imported-function", lib: "pub fn f() -> str { \"abc\" }\npub fn g() -> str { \"x\" }\nfn main() {}\n",
+		good: "import g from lib;\nlet f = 1;\nfn main() { println(f, g()); }\n", bad: "import f from lib;\nlet f = 1;\nfn main() { println(f); }\n"},
 	{name: "duplicate-parameter", good: "fn f(a: int, b: int) -> int { a + b }\nfn main() { println(f(1, 2)); }\n", bad: "fn f(a: int, a: int) -> int { a }\nfn main() { println(f(1, 2)); }\n"},
 	{name: "duplicate-lambda-parameter", good: "fn main() { let l = fn(a: int, b: int) -> int { a + b }; println(l(1, 2)); }\n", bad: "fn main() { let l = fn(a: int, a: int) -> int { a }; println(l(1, 2)); }\n"},
 	{name: "duplicate-object-type-field", good: "type T = { a: int, b: int };\nfn main() { let v: T = new { a: 1, b: 2 }; println(v.a); }\n", bad: "type T = { a: int, a: int };\nfn main() { println(1); }\n"},
@@ -458,8 +472,12 @@ func TestTableRules(t *testing.T) {
 		}
 	}
 	for _, r := range topRules {
-		submit(mkCase(r.good, r.name, "top-level", r.noMain), true)
-		submit(mkCase(r.bad, r.name, "top-level", r.noMain), false)
+		g, b := mkCase(r.good, r.name, "top-level", r.noMain), mkCase(r.bad, r.name, "top-level", r.noMain)
+		if r.lib != "" {
+			g.Modules["lib"], b.Modules["lib"] = r.lib, r.lib
+		}
+		submit(g, true)
+		submit(b, false)
 	}
 	wg.Wait()
 	col.Done(t)
